@@ -31,14 +31,15 @@ type MintNode struct {
 }
 
 type WalletNode struct {
-	Name  string
-	Dir   string
-	Epoch int
-	Inc   *Inc
-	W     *wallet.Wallet
-	Inner wstorage.WalletDB
-	Mint  string // default mint URL
-	Rec   *WalletRec
+	Name     string
+	Dir      string
+	Epoch    int
+	Inc      *Inc
+	W        *wallet.Wallet
+	Inner    wstorage.WalletDB
+	Mint     string // default mint URL
+	Rec      *WalletRec
+	Mnemonic string
 }
 
 type World struct {
